@@ -39,6 +39,10 @@ CLAIMED = {
    text="Structural conditions for reversibility decided from the code: label table of LintStatus.String on all declared constants and out-of-range values against the published labels (non-empty, distinct); StatusLabelToLintStatus has one String()→status entry per constant and is never modified; MarshalJSON/UnmarshalJSON decision tables (unknown label ⇒ error, no default); struct tags of ResultSet/LintResult/LintMetadata/Profile and the three lint structs (round-trip fields keyed uniquely, function fields excluded); WriteJSON's decision table encodes each element of all three listings exactly once; LintSource decodes only declared sources. encoding/json's own behaviour (U+FFFD, escaping) is trusted, not decided.",
    note=TRUST+"encoding/json honours MarshalJSON/UnmarshalJSON and struct tags as documented.",
    technique="decision-table extraction over go/ssa, struct-tag and constant-table census", ref="§3 C14"),
+ "C18": dict(level="other",
+   text="Table clause complete: every entry of the generated tldMap literal (≈1570) is checked by the checker's own arithmetic (key = GTLD, lower-case, delegation date parses, removal empty or parseable and not earlier) and the map is never written; the decision tables of GTLDPeriod.Valid (all orderings of when/delegation/removal), HasValidTLD, IsInTLDMap, DNSNamesExist, the TLD lint's Execute (loop unrolled twice + index-only side condition) and CheckApplies, and the generator's validateGTLDs are compared with the stated rule. Decides every domain string and instant because the code touches them only through the modelled atoms; strings.Split/ToLower and time.Parse are trusted.",
+   note=TRUST+"time.Parse(2006-01-02), strings.ToLower/Split semantics are trusted, not modelled.",
+   technique="constant-table census (go/ast + go/constant) with checker-side date arithmetic; decision-table extraction over go/ssa", ref="§3 C18"),
 }
 
 NOT_YET = "check not built yet in this session (see DESIGN.md §3 for the planned static rule)"
